@@ -5,7 +5,7 @@
 # Layout: /tmp/st/repo = detached worktree of /repo HEAD, /tmp/st/verif = copy of the /verif working tree.
 # Prints one line per patch: DETECTED (exit 1 + VIOLATION line) / MISSED (exit 0) / INCONCLUSIVE (other).
 set -u
-ST=/tmp/st
+ST="${ST:-/tmp/st}"
 TIER="${TIER:-quick}"
 mkdir -p $ST
 HEAD=$(git -C /repo rev-parse HEAD)
